@@ -58,6 +58,15 @@ func (cfg *Config) merge(src *Config) error {
 		return err
 	}
 
+	// mergo keeps the destination's non-empty container, so variables are merged explicitly
+	if src.Variables != nil {
+		if cfg.Variables == nil {
+			cfg.Variables = src.Variables
+		} else {
+			cfg.Variables = src.Variables.Merge(cfg.Variables)
+		}
+	}
+
 	return nil
 }
 
